@@ -102,18 +102,23 @@ def _helper_dest(repo: Repo, h: FuncInfo):
     """(part attr, container const, existing-scope: ('part', part) | ('container',) | ('none',), default_tag) of a helper."""
     part = cont = None
     scope = ("none",)
+    # roles by position in what the helper returns: (existing style, destination container)
+    ex_var, ct_var = "existing", "style_container"
     for n in walk_no_nested(h.node):
-        if isinstance(n, ast.Assign) and isinstance(n.targets[0], ast.Name) and n.targets[0].id == "style_container" \
+        if isinstance(n, ast.Return) and isinstance(n.value, ast.Tuple) and len(n.value.elts) == 2 and all(isinstance(x, ast.Name) for x in n.value.elts):
+            ex_var, ct_var = n.value.elts[0].id, n.value.elts[1].id
+    for n in walk_no_nested(h.node):
+        if isinstance(n, ast.Assign) and isinstance(n.targets[0], ast.Name) and n.targets[0].id == ct_var \
                 and isinstance(n.value, ast.Call) and call_name(n.value) == "get_element" and isinstance(n.value.func.value, ast.Attribute) \
                 and is_self_attr(n.value.func.value):
             part = n.value.func.value.attr
             cont = repo.fold(n.value.args[0], h.module) if n.value.args else UNKNOWN
-        if isinstance(n, ast.Assign) and isinstance(n.targets[0], ast.Name) and n.targets[0].id == "existing" and isinstance(n.value, ast.Call) \
+        if isinstance(n, ast.Assign) and isinstance(n.targets[0], ast.Name) and n.targets[0].id == ex_var and isinstance(n.value, ast.Call) \
                 and call_name(n.value) == "get_style":
             recv = n.value.func.value
             if isinstance(recv, ast.Attribute) and is_self_attr(recv):
                 scope = ("part", recv.attr, len(n.value.args))
-            elif isinstance(recv, ast.Name) and recv.id == "style_container":
+            elif isinstance(recv, ast.Name) and recv.id == ct_var:
                 scope = ("container",)
             else:
                 scope = ("other", ast.unparse(recv))
@@ -199,10 +204,14 @@ def r13ab(ctx):
     doc = repo.cls("Document")
     table = {}
     seen_b: set[tuple] = set()
+    # the local of insert_style that holds the family: defined by reading `.family` of the style
+    fam_defs = [n.targets[0].id for n in walk_no_nested(ins.node) if isinstance(n, ast.Assign) and len(n.targets) == 1 and isinstance(n.targets[0], ast.Name)
+                and isinstance(n.value, ast.Attribute) and n.value.attr == "family"]
+    fam_var = fam_defs[0] if fam_defs else "family"
     for family in sorted(fam_map) + [""]:
         tag = fam_map.get(family, "draw:fill-image")
         for mode, flags in MODES:
-            env = {"family": family, **flags}
+            env = {fam_var: family, **flags}
             if family == "":
                 # DrawFillImage pseudo style: the class-name test cannot be folded; evaluate that arm directly
                 h = doc.lookup("_insert_style_get_draw_fill_image")
@@ -284,20 +293,25 @@ def r13c(ctx):
     ctx.rule("R13c", "an existing style of the same family/name is deleted before the new one is appended; merging looks for it in the whole destination part", floor=3)
     f = repo.func("Document.insert_style")
     cfg = cfg_of(f)
+    # roles: `existing, container = self._insert_style_…(…)` — by position in the tuple the helpers return
+    pairs = {(n.targets[0].elts[0].id, n.targets[0].elts[1].id) for n in walk_no_nested(f.node) if isinstance(n, ast.Assign) and isinstance(n.targets[0], ast.Tuple)
+             and len(n.targets[0].elts) == 2 and all(isinstance(x, ast.Name) for x in n.targets[0].elts) and isinstance(n.value, ast.Call)
+             and call_name(n.value).startswith("_insert_style")}
+    if len(pairs) != 1:
+        raise AnalysisError(f"R13c: insert_style no longer receives (existing, container) from its helpers in one pair of locals: {sorted(pairs)}")
+    ex_var, ct_var = next(iter(pairs))
     apps = [n for n in walk_no_nested(f.node) if isinstance(n, ast.Call) and call_name(n) == "append" and isinstance(n.func.value, ast.Name)
-            and n.func.value.id == "style_container"]
-    dels = [n for n in walk_no_nested(f.node) if isinstance(n, ast.Call) and call_name(n) == "delete" and n.args and ast.unparse(n.args[0]) == "existing"]
+            and n.func.value.id == ct_var]
+    dels = [n for n in walk_no_nested(f.node) if isinstance(n, ast.Call) and call_name(n) == "delete" and n.args and isinstance(n.args[0], ast.Name) and n.args[0].id == ex_var]
     if not apps:
-        raise AnalysisError("R13c: style_container.append not found")
+        raise AnalysisError("R13c: append to the destination container not found in insert_style")
     ok = False
     for d in dels:
-        g = structural_guards(d, stop=f.node)
-        st = [n for n in cfg.nodes if n.stmt is not None and any(x is d for x in ast.walk(n.stmt)) and n.kind == "stmt"]
         test_nodes = [n for n in cfg.nodes if n.kind == "test" and isinstance(n.stmt, ast.If) and any(x is d for x in ast.walk(n.stmt))]
-        if test_nodes and "existing" in ast.unparse(test_nodes[-1].stmt.test) and cfg.dominates(test_nodes[-1], node_of(cfg, apps[0])) \
-                and ast.unparse(d.func.value) == "style_container":
+        if test_nodes and any(isinstance(x, ast.Name) and x.id == ex_var for x in ast.walk(test_nodes[-1].stmt.test)) and cfg.dominates(test_nodes[-1], node_of(cfg, apps[0])) \
+                and isinstance(d.func.value, ast.Name) and d.func.value.id == ct_var:
             ok = True
-    ctx.instance("R13c", f"{f.file}:{f.ident}", "`if existing is not None: style_container.delete(existing)` dominates the append", ok=ok, nontrivial=True)
+    ctx.instance("R13c", f"{f.file}:{f.ident}", "`if existing is not None: container.delete(existing)` dominates the append", ok=ok, nontrivial=True)
     if not ok:
         ctx.report("R13c", f, apps[0], "append without delete of the existing style",
                    "the new style is appended without first removing an existing style of the same family and name: duplicates")
@@ -408,6 +422,14 @@ def r13d(ctx):
         raise AnalysisError("R13d: no cross-document attach site found (merge_styles_from vanished?)")
 
 
+def _max_plus_one(loop: ast.For, value: ast.expr) -> bool:
+    """`value` contains M + 1 where M is the running maximum of the scan loop (M = max(M, …))."""
+    ms = {n.targets[0].id for n in ast.walk(loop) if isinstance(n, ast.Assign) and len(n.targets) == 1 and isinstance(n.targets[0], ast.Name)
+          and isinstance(n.value, ast.Call) and call_name(n.value) == "max" and any(isinstance(a, ast.Name) and a.id == n.targets[0].id for a in n.value.args)}
+    return any(isinstance(x, ast.BinOp) and isinstance(x.op, ast.Add) and isinstance(x.left, ast.Name) and x.left.id in ms
+               and isinstance(x.right, ast.Constant) and x.right.value == 1 for x in ast.walk(value))
+
+
 def r13e(ctx):
     repo = ctx.repo
     ctx.rule("R13e", "generated names are assigned after scanning all containers that may hold a clashing name", floor=3)
@@ -422,7 +444,7 @@ def r13e(ctx):
     loops = [n for n in walk_no_nested(f.node) if isinstance(n, ast.For)]
     sets = [n for n in walk_no_nested(f.node) if isinstance(n, ast.Assign) and isinstance(n.targets[0], ast.Attribute) and n.targets[0].attr == "name"]
     ok2 = bool(loops) and bool(sets) and not any(l in [p for p in _ancestors(sets[0])] for l in loops) and \
-        cfg.dominates(node_of(cfg, loops[0]), node_of(cfg, sets[0])) and "max_index + 1" in ast.unparse(sets[0].value)
+        cfg.dominates(node_of(cfg, loops[0]), node_of(cfg, sets[0])) and _max_plus_one(loops[0], sets[0].value)
     ctx.instance("R13e", f"{f.file}:{f.ident}", "style.name = prefix + (max_index + 1) after the scan loop", ok=ok2, nontrivial=True)
     if not ok2:
         ctx.report("R13e", f, f.node, "name assigned inside/before the scan", "the automatic name is not max+1 computed after the whole scan")
